@@ -43,6 +43,7 @@ class World(SessionWorld):
         SessionWorld.__init__(self, run)
         self.mode = mode
         self.reqs = {}  # id -> Req
+        self.goodbye_in_progress = False
         self.kept_call_options = {}  # option kind -> (CallOptions object the application keeps, holder naming the call it is used for now)
         self.order = []
         self.subs = []  # live Subscription objects (model side: (sub, sub_id, token))
@@ -198,6 +199,8 @@ class World(SessionWorld):
                     acts.append((4.0, "reply", self.router_reply))
                 if self.ops_left > 0:
                     acts.append((0.8, "adversarial", self.router_adversarial))
+                if pend and self.mode == "cut" and self.session._session_id and not self.goodbye_in_progress:
+                    acts.append((0.3, "router-goodbye", self.router_goodbye))
                 if self.subs or self.regs:
                     acts.append((0.8, "event-or-invocation", self.router_push))
             if self.mode == "cut" and self.run.steps > 1:
@@ -205,6 +208,19 @@ class World(SessionWorld):
         if self.t.attached and (self.t.closing is not None or self.violated_session):
             acts.append((3.0, "transport-closed", self.cut))
         return acts
+
+    def router_goodbye(self):
+        """the router ends the session while requests are pending: they fail with the close reason - and whatever the
+        application issues from inside those failures (a retry, a fallback) still completes exactly once, at the latest
+        when the transport goes"""
+        self.run.fault("router-goodbye-with-requests-pending")
+        self.lost = True  # (from here on what is pending ends in an error, not in its reply)
+        self.goodbye_in_progress = True
+        exc = self.deliver(self.M.Goodbye("wamp.close.system_shutdown", "the realm is being shut down"))
+        self.settle()
+        if exc is not None:
+            from worlds.ws import exc_site
+            self.run.violate("C04.completes-once", "goodbye-raised:%s:%s" % (type(exc).__name__, exc_site(exc)), repr(exc))
 
     def cut(self):
         self.run.fault("transport-lost")
@@ -408,7 +424,10 @@ class World(SessionWorld):
         r.fut = fut
         if fut is not None and kind != "cancel" and ch.flag("completion-callback-issues-call", 0.15):
             def chain(res, r=r):
-                if self.t.attached and self.t.closing is None and not self.violated_session and self.session._session_id:
+                if self.t.attached and self.t.closing is None and not self.violated_session and (
+                        self.session._session_id or self.goodbye_in_progress):
+                    if self.goodbye_in_progress:
+                        self.run.probe("request-issued-while-the-session-is-failing-its-requests")
                     self.chained_call(r)
                 return res
             import txaio
